@@ -1699,29 +1699,41 @@ fn evaluate_scalar_func(
                 .and_then(|a| a.as_any().downcast_ref::<StringArray>());
             let pad_nulls = evaluated_args.get(2).and_then(|a| a.logical_nulls());
 
+            let mut total = 0usize;
             let result: StringArray = (0..str_arr.len())
                 .map(|i| {
                     if str_arr.is_null(i)
                         || len_nulls.as_ref().is_some_and(|n| n.is_null(i))
                         || pad_nulls.as_ref().is_some_and(|n| n.is_null(i))
                     {
-                        None
+                        Ok(None)
                     } else {
                         let s = str_arr.value(i);
                         let pad_char = pad_arr.map(|p| p.value(i)).unwrap_or(" ");
-                        let target_len = get_int_value(len_arr, i).unwrap_or(0) as usize;
+                        // a negative length pads (and keeps) nothing
+                        let target_len = get_int_value(len_arr, i).unwrap_or(0).max(0) as usize;
                         let current_len = s.chars().count();
                         if current_len >= target_len {
-                            Some(s.chars().take(target_len).collect::<String>())
+                            Ok(Some(s.chars().take(target_len).collect::<String>()))
+                        } else if pad_char.is_empty() {
+                            Ok(Some(s.to_string()))
                         } else {
                             let padding_needed = target_len - current_len;
+                            let widest = pad_char.chars().map(char::len_utf8).max().unwrap_or(1);
+                            grow_utf8_total(
+                                "LPAD",
+                                &mut total,
+                                padding_needed
+                                    .checked_mul(widest)
+                                    .and_then(|b| b.checked_add(s.len())),
+                            )?;
                             let pad_chars: String =
                                 pad_char.chars().cycle().take(padding_needed).collect();
-                            Some(format!("{}{}", pad_chars, s))
+                            Ok(Some(format!("{}{}", pad_chars, s)))
                         }
                     }
                 })
-                .collect();
+                .collect::<Result<_>>()?;
             Ok(Arc::new(result))
         }
 
@@ -1743,29 +1755,41 @@ fn evaluate_scalar_func(
                 .and_then(|a| a.as_any().downcast_ref::<StringArray>());
             let pad_nulls = evaluated_args.get(2).and_then(|a| a.logical_nulls());
 
+            let mut total = 0usize;
             let result: StringArray = (0..str_arr.len())
                 .map(|i| {
                     if str_arr.is_null(i)
                         || len_nulls.as_ref().is_some_and(|n| n.is_null(i))
                         || pad_nulls.as_ref().is_some_and(|n| n.is_null(i))
                     {
-                        None
+                        Ok(None)
                     } else {
                         let s = str_arr.value(i);
                         let pad_char = pad_arr.map(|p| p.value(i)).unwrap_or(" ");
-                        let target_len = get_int_value(len_arr, i).unwrap_or(0) as usize;
+                        // a negative length pads (and keeps) nothing
+                        let target_len = get_int_value(len_arr, i).unwrap_or(0).max(0) as usize;
                         let current_len = s.chars().count();
                         if current_len >= target_len {
-                            Some(s.chars().take(target_len).collect::<String>())
+                            Ok(Some(s.chars().take(target_len).collect::<String>()))
+                        } else if pad_char.is_empty() {
+                            Ok(Some(s.to_string()))
                         } else {
                             let padding_needed = target_len - current_len;
+                            let widest = pad_char.chars().map(char::len_utf8).max().unwrap_or(1);
+                            grow_utf8_total(
+                                "RPAD",
+                                &mut total,
+                                padding_needed
+                                    .checked_mul(widest)
+                                    .and_then(|b| b.checked_add(s.len())),
+                            )?;
                             let pad_chars: String =
                                 pad_char.chars().cycle().take(padding_needed).collect();
-                            Some(format!("{}{}", s, pad_chars))
+                            Ok(Some(format!("{}{}", s, pad_chars)))
                         }
                     }
                 })
-                .collect();
+                .collect::<Result<_>>()?;
             Ok(Arc::new(result))
         }
 
@@ -2005,17 +2029,19 @@ fn evaluate_scalar_func(
             let count_arr = &evaluated_args[1];
             let count_nulls = count_arr.logical_nulls();
 
+            let mut total = 0usize;
             let result: StringArray = (0..str_arr.len())
                 .map(|i| {
                     if str_arr.is_null(i) || count_nulls.as_ref().is_some_and(|n| n.is_null(i)) {
-                        None
+                        Ok(None)
                     } else {
                         let s = str_arr.value(i);
                         let n = get_int_value(count_arr, i).unwrap_or(0).max(0) as usize;
-                        Some(s.repeat(n))
+                        grow_utf8_total("REPEAT", &mut total, s.len().checked_mul(n))?;
+                        Ok(Some(s.repeat(n)))
                     }
                 })
-                .collect();
+                .collect::<Result<_>>()?;
             Ok(Arc::new(result))
         }
 
@@ -5839,6 +5865,22 @@ fn constant_int_value(expr: &crate::planner::Expr, arr: &ArrayRef) -> Option<i64
         return get_int_value(arr, 0);
     }
     None
+}
+
+/// A Utf8 array addresses its bytes with i32 offsets: string-building functions
+/// (REPEAT, LPAD, RPAD) account for the bytes they are about to produce and
+/// return an error instead of overflowing the offsets or the allocator.
+fn grow_utf8_total(func: &str, total: &mut usize, bytes: Option<usize>) -> Result<()> {
+    match bytes.and_then(|b| total.checked_add(b)) {
+        Some(t) if t <= i32::MAX as usize => {
+            *total = t;
+            Ok(())
+        }
+        _ => Err(QueryError::InvalidArgument(format!(
+            "{} result exceeds the maximum string column size",
+            func
+        ))),
+    }
 }
 
 fn get_int_value(arr: &ArrayRef, idx: usize) -> Option<i64> {
